@@ -54,7 +54,9 @@ BOUNDS = {
         "assignments (|dF| <= 10). K-orthogonal: C(2,2), C(3,2), Tensor 2x2, Tensor 3x2, 1-d grids x {I,diag,hetdiag} x "
         "all assignments. Periodic letters (both parts): Tensor 2x2 /per-x, /per-y, Tensor 3x2 /per-x, /per-xy, C(3,3) /per-y, "
         "Tensor 2x2 /per-y scaled 1e-3. Scale axis: C(2,2)~ *1e-3, T(2,2) *1e3, Tensor 2x2 *1e-3, C(3,2) *1e3 (structural), "
-        "Tensor 2x2 *1e-3, C(2,2) *1e3 (K-orthogonal). Purity digest on every evaluation, reuse on every 4th assignment. 3-d (side-wise U single flips): "
+        "Tensor 2x2 *1e-3, C(2,2) *1e3 (K-orthogonal). Purity digest on every evaluation, reuse on every 4th assignment. Embedded 2-d grids (tilted planes rx45/gen/gen2): structural with global 3x3 tensors, "
+        "K-orthogonal with Q diag Q^T (homogeneous and cell-wise). Small cells: scale 1e-4, 1e-5, 1e-6 (both parts). "
+        "3-d (side-wise U single flips): "
         "C(2,2,2), C(2,2,2)@shear, Tensor 2x2x2 uneven, Prism(1,1; 2 layers) structural; C(2,2,2), Tensor 2x2x2 K-orthogonal."
     ),
     "thorough": (
@@ -126,6 +128,22 @@ def cases(tier):
     for spec in (dict(T22, scale=1e-3), c22(scale=1e3)):
         for K in KS_ORTH:
             _emit(out, spec, K, "K", "all", 128)
+    # embedded 2-d grids (tilted plane in 3-d): structural part with global 3x3 tensors; K-orthogonal part with tensors
+    # that are diagonal in the plane coordinates (Q diag Q^T), homogeneous and heterogeneous
+    emb = [c22(embed="gen"), t22(embed="gen2"), c22(pert=[[4, [1, -1]]], embed="rx45"), dict(T22, embed="gen")]
+    for spec in emb:
+        for K in ("Qplane", "full", "rot", "hetdiag", "hetfull"):
+            _emit(out, spec, K, "S", "all", 1024)
+    for spec in (c22(embed="gen"), dict(T22, embed="gen2"), c32(embed="rx45")):
+        for K in ("I", "Qdiag", "Qhetdiag"):
+            _emit(out, spec, K, "K", "all", 128)
+    # very small cells (absolute thresholds on squared distances would bite here)
+    for spec in (c22(scale=1e-4), dict(T22, scale=1e-4), c22(pert=[[4, [1, -1]]], scale=1e-6), dict(T32, scale=1e-6)):
+        for K in KS_ALL:
+            _emit(out, spec, K, "S", "all", 1024)
+    for spec in (dict(T22, scale=1e-4), c22(scale=1e-6), dict(L1N, scale=1e-5), dict(T22, periodic=[0], scale=1e-5)):
+        for K in KS_ORTH:
+            _emit(out, spec, K, "K", "all", 128)
     # 3-d letters with quadrilateral faces (and Neumann faces carrying non-zero flux in the exactness part)
     c222q = {"kind": "C", "n": [2, 2, 2]}
     for spec in (c222q, dict(c222q, affine="shear"), T222, {"kind": "Prism", "n": [1, 1], "z": [0, 1, 2.5]}):
@@ -157,11 +175,26 @@ def cases(tier):
     return out
 
 
-def _perm(kl, g):
+def _perm(kl, g, spec=None):
     """(tensor object, constant matrix or None, max |K| entry)"""
     import porepy as pp
 
     dim, nc = g.dim, g.num_cells
+    if spec is not None and spec.get("embed"):
+        # embedded 2-d grid: 3x3 tensors in global coordinates
+        if kl in ("hetdiag", "hetfull"):
+            v = G.hetdiag_values(nc, 3)
+            o = 0.5 * np.ones(nc) if kl == "hetfull" else np.zeros(nc)
+            return pp.SecondOrderTensor(kxx=v[0], kyy=v[1], kzz=v[2], kxy=o, kxz=o, kyz=o), None, float(np.max(v))
+        if kl == "Qhetdiag":
+            # heterogeneous, diagonal in the plane coordinates: K_c = Q diag(v_c) Q^T
+            Q = G.EMBED[spec["embed"]]
+            v = G.hetdiag_values(nc, 3)
+            Kc = np.einsum("ia,ac,ja->ijc", Q, v, Q)
+            t = pp.SecondOrderTensor(kxx=Kc[0, 0], kyy=Kc[1, 1], kzz=Kc[2, 2], kxy=Kc[0, 1], kxz=Kc[0, 2], kyz=Kc[1, 2])
+            return t, None, float(np.max(v))
+        K = G.k_matrix_embedded(kl, spec)
+        return G.tensor_from_matrix(K, nc), K, float(np.max(np.abs(K)))
     if kl == "hetdiag":
         return G.tensor_hetdiag(nc, dim), None, float(np.max(G.hetdiag_values(nc, dim)))
     if kl == "hetfull":
@@ -263,7 +296,7 @@ def _korth(g, info, md, perm, Kc, bc, is_dir, tol_f, tol_p):
         if info.get("periodic_pairs") is not None:
             for l, r in info["periodic_pairs"].T:  # noqa: E741
                 per_axes.add(int(np.argmax(np.abs(g.face_centers[:, r] - g.face_centers[:, l]))))
-        for name, p0, grad in G.basis_fields(g.dim):
+        for name, p0, grad in G.basis_fields(3 if info.get("plane_normal") is not None else g.dim):
             if any(grad[a] != 0 for a in per_axes):
                 continue  # not a periodic field
             pc, pf, bcv, q = F.linear_data(g, info, Kc, is_dir, p0, grad)
@@ -291,7 +324,7 @@ def run_case(case) -> Outcome:
     nb = len(info["bfaces"])
     assert nb == G.num_boundary_faces(spec), (nb, spec)
     assert g.num_cells >= 2
-    perm, Kc, kmax = _perm(kl, g)
+    perm, Kc, kmax = _perm(kl, g, spec)
     if case["aset"] == "all":
         masks = G.all_assignments(nb)
     else:
@@ -305,7 +338,7 @@ def run_case(case) -> Outcome:
     gname = G.grid_name(spec)
     plain = spec["kind"] == "C" and not spec.get("pert") and spec.get("affine", "id") == "id" and not spec.get("periodic")
     gcls = f"{dim}d-{spec['kind']}" + ("~" if spec.get("pert") else "") + ("@" if spec.get("affine", "id") != "id" else "")
-    gcls += ("/per" if spec.get("periodic") else "") + ("*" if spec.get("scale", 1.0) != 1.0 else "")
+    gcls += ("^emb" if spec.get("embed") else "") + ("/per" if spec.get("periodic") else "") + ("*" if spec.get("scale", 1.0) != 1.0 else "")
     bf = info["bfaces"]
     for m in masks:
         is_dir = G.mask_to_dir(m, nb)
@@ -347,7 +380,7 @@ def run_case(case) -> Outcome:
                         dirichlet_faces=bf[is_dir], neumann_faces=bf[~is_dir], **bad[1])
             out.ev("VIOLATION", key)
         else:
-            out.ev(f"{part}/{gcls}/{'het' if Kc is None else ('diag' if kl in ('I', 'diag') else 'full')}/{bccls}", key)
+            out.ev(f"{part}/{gcls}/{'het' if Kc is None else ('diag' if kl in ('I', 'diag', 'Qdiag') else 'full')}/{bccls}", key)
         if not out.samples and key is not None:
             out.samples.append({"grid": gname, "K": kl, "part": part, "dirichlet_faces": bf[is_dir].tolist(),
                                 "neumann_faces": bf[~is_dir].tolist()})
